@@ -2,7 +2,7 @@
  * and every implementation variant the dispatcher can select. */
 #include "codec_common.h"
 
-#define MAXIN 200064
+#define MAXIN (800 * 1024)
 static uint8_t *inbuf;
 static char in_name[64];
 
@@ -103,6 +103,8 @@ static void sweep(uint64_t in_id, size_t len, int reduced, int big)
 						continue;
 					if (big && gz != 0 && gz != 1 && gz != 3)
 						continue;
+					if (big == 2 && (gz != 1 || flush == 1))
+						continue;
 					for (int hi = 0; hi < nhb; hi++)
 						for (int huff = 0; huff < 3; huff++) {
 							if (level && huff)
@@ -119,8 +121,10 @@ static void sweep(uint64_t in_id, size_t len, int reduced, int big)
 									if (nfail > 40 || v_deadline_hit())
 										return;
 									struct cparams p = { level, flush, gz, hb[hi], huff, lb, api, 97, 61 };
+									if (big == 2 && api == API_ONECALL)
+										continue;
 									if (big && api == API_CHUNKED) {
-										p.cin = 8192 + 13;
+										p.cin = big == 2 ? 100000 : 8192 + 13;
 										p.cout = 4096 + 7;
 									}
 									one(&p, cpus[ci], in_id, len);
@@ -172,6 +176,16 @@ int main(int argc, char **argv)
 			if (nfail > 40 || v_deadline_hit())
 				goto out;
 		}
+	}
+	/* FARMIX: back-to-back far matches of assorted lengths (widest encoded symbols); levels 1-3 matter, every CPU level */
+	for (int k = 0; k < (v_thorough ? 6 : 1); k++) {
+		uint64_t id = unit++;
+		if (!v_mine(id))
+			continue;
+		int len = v_thorough ? 768 * 1024 : 512 * 1024;
+		fill_farmix(inbuf, len, 100 + k);
+		snprintf(in_name, sizeof in_name, "farmix:%d:seed%d", len, k);
+		sweep(id, len, 0, 2);
 	}
 	/* BIG (thorough): window wrap, stored-block splitting at 65535, 16-bit hash index wrap */
 	if (v_thorough)
